@@ -289,3 +289,119 @@ def load_average_refimg(S):
     nz = out.attrs['noise_sd']
     nz = nz.item() if hasattr(nz, 'item') else nz
     S.claim_eq('noise_over_selected_pixels', nz, sum(ratios.reshape(-1)) / 4)
+
+
+class _SymArr(np.ndarray):
+    """object ndarray whose astype(<integer type>) truncates symbolically (what NumPy does to floats)"""
+
+    def astype(self, dtype, *a, **k):
+        if np.dtype(dtype).kind in 'iu':
+            out = np.empty(self.shape, dtype=object)
+            for i, v in np.ndenumerate(np.asarray(self)):
+                out[i] = core.sym_floor(v) if core.is_sym(v) else int(v)
+            return out
+        return np.asarray(self).astype(dtype, *a, **k)
+
+
+@obligation('C16.export_quantisation', functions=[IO + '_save_im'], max_paths=64, nvalid=2,
+            stubs=['PIL.Image.fromarray(...).save := recorder (no file is written)'],
+            bounds='_save_im with depth 8 on a 1x2 image with symbolic values in [0, 1]: the stored integer levels are '
+                   'in 0..255 and within (0.5 + 1e-6)/255 of the value (the stated quantisation of the export)')
+def export_quantisation(S):
+    _setup(S)
+    saved = {}
+
+    class _Img:
+        def __init__(self, arr):
+            self.arr = arr
+
+        def save(self, filename, **kw):
+            saved['arr'] = self.arr
+            saved['filename'] = filename
+
+    class _PIL:
+        @staticmethod
+        def fromarray(arr):
+            return _Img(arr)
+    S.patch(io_mod, 'pilimage', _PIL, both=True)
+    vals = [S.real('v0', lo=0, hi=1), S.real('v1', lo=0, hi=1)]
+    if S.sym:
+        arr = np.array([vals], dtype=object).view(_SymArr)
+    else:
+        arr = np.array([vals], dtype=float)
+
+    class _Image:
+        name = 'img'
+        values = arr
+    io_mod._save_im('out.png', _Image(), depth=8)
+    q = np.asarray(saved['arr']).reshape(-1)
+    S.claim('filename_kept', saved['filename'] == 'out.png')
+    for i in range(2):
+        S.observe(f'level{i}', q[i])
+        S.claim_ge(f'level{i}.at_least_0', q[i], 0)
+        S.claim_le(f'level{i}.at_most_255', q[i], 255)
+        err = q[i] / 255 - vals[i]
+        S.claim_le(f'level{i}.error_upper', err, (0.5 + 1e-6) / 255)
+        S.claim_ge(f'level{i}.error_lower', err, -(0.5 + 1e-6) / 255)
+
+
+def _tiff_reload(S, depth, full_scale):
+    """Real save_image writes a real TIFF (concrete image, real metadata tag) into a scratch directory; the pixel
+    decoder (load_image) is then replaced by a stub returning arbitrary stored levels, and the real load() undoes
+    the export scaling."""
+    import os
+    import shutil
+    import tempfile
+    _setup(S)
+    orig_vals = np.array([[20.0, 21.5], [23.5, 22.0]])
+    smin, smax = 20.0, 23.5
+    im = data_grid(orig_vals.copy(), spacing=(0.1, 0.3), medium_index=1.33, illum_wavelen=0.66,
+                   illum_polarization=(0, 1), noise_sd=0.08, name='holo')
+    tmp = tempfile.mkdtemp(prefix='symx_c16_')
+    try:
+        fn = os.path.join(tmp, 'im.tif')
+        real_np = io_mod.np
+        io_mod.save_image(fn, im, scaling='auto', depth=depth)
+        decoded = io_mod.load_image(fn, spacing=(0.1, 0.3), name='holo', channel='all')
+        # stored levels: the export fills the whole range, so level 0 and full scale are present
+        p, q = S.real('level_p', lo=0, hi=full_scale), S.real('level_q', lo=0, hi=full_scale)
+        levels = np.empty(decoded.shape, dtype=object if S.sym else float)
+        flat = [0.0, p, full_scale, q]
+        for k, idx in enumerate(np.ndindex(*decoded.shape)):
+            levels[idx] = flat[k % 4]
+        stub_result = decoded.copy(data=levels)
+
+        def _load_image(inf, spacing=None, **kw):
+            return stub_result
+        S.patch(io_mod, 'load_image', _load_image, both=True)
+        loaded = io_mod.load(fn)
+    finally:
+        shutil.rmtree(tmp, ignore_errors=True)
+    got = np.asarray(loaded.values).reshape(-1)
+    S.observe('loaded', got)
+    S.claim('shape', tuple(np.shape(np.squeeze(loaded.values))) == (2, 2))
+    S.claim('name', loaded.name == 'holo')
+    S.claim('medium_index', loaded.attrs.get('medium_index') == 1.33)
+    S.claim('illum_wavelen', loaded.attrs.get('illum_wavelen') == 0.66)
+    S.claim('noise_sd', loaded.attrs.get('noise_sd') == 0.08)
+    S.claim('spacing', bool(np.allclose(np.diff(loaded.x.values), 0.1) and np.allclose(np.diff(loaded.y.values), 0.3)))
+    for k in range(4):
+        S.claim_eq(f'pixel{k}.value', got[k], smin + flat[k] * (smax - smin) / full_scale)
+
+
+@obligation('C16.tiff_reload.depth8', functions=[IO + 'load', IO + 'save_image', IO + '_save_im', IO + 'pack_attrs',
+                                                 IO + 'unpack_attrs'], max_paths=64, nvalid=2,
+            stubs=['load_image := arbitrary stored levels 0..255 with 0 and 255 present (what the auto-scaled export '
+                   'writes); PIL decoding outside the claim'],
+            bounds='2x2 image exported by the real save_image (8 bit, automatic scaling) into a scratch TIFF; on reload '
+                   'a stored level L becomes smin + L (smax-smin)/255 for every level, metadata/name/spacing return')
+def tiff_reload_8(S):
+    _tiff_reload(S, 8, 255.0)
+
+
+@obligation('C16.tiff_reload.float', functions=[IO + 'load', IO + 'save_image', IO + '_save_im', IO + 'pack_attrs',
+                                                IO + 'unpack_attrs'], max_paths=64, nvalid=2,
+            stubs=['load_image := arbitrary stored values in [0, 1] with 0 and 1 present; PIL decoding outside the claim'],
+            bounds="same with depth='float': a stored value v in [0,1] becomes smin + v (smax-smin)")
+def tiff_reload_float(S):
+    _tiff_reload(S, 'float', 1.0)
